@@ -25,6 +25,7 @@ mod c13;
 mod c14;
 mod c15;
 mod c16;
+mod c17;
 mod c18;
 mod c19;
 mod c20;
@@ -89,6 +90,7 @@ fn main() {
             "C14" => c14::replay(&v["replay"]),
             "C15" => c15::replay(&v["replay"]),
             "C16" => c16::replay(&v["replay"]),
+            "C17" => c17::replay(&v["replay"]),
             "C18" => c18::replay(&v["replay"]),
             "C19" => c19::replay(&v["replay"]),
             "C20" => c20::replay(&v["replay"]),
@@ -123,6 +125,7 @@ fn main() {
             "C14" => c14::run(thorough),
             "C15" => c15::run(thorough),
             "C16" => c16::run(thorough),
+            "C17" => c17::run(thorough),
             "C18" => c18::run(thorough),
             "C19" => c19::run(thorough),
             "C20" => c20::run(thorough),
